@@ -1165,3 +1165,31 @@ ModuleTranslator.function = _function_c14
 ModuleTranslator.call = _call_c14
 ModuleTranslator.args_for = _args_for_c14
 ModuleTranslator.translate = _translate_c14
+# ---- appended for C13: the "maybe unbound at a join and used afterwards" test
+# of if_stmt/try_stmt asked whether the name occurs anywhere in the rest of the
+# block; a name that is definitely re-assigned before it is read (fit_to_range's
+# `fill`) is fine.  This refinement only accepts more programs; a wrong answer
+# cannot produce a wrong model: the generated Coq term would mention an unbound
+# v_<name> and fail to compile.
+_names_used_anywhere = names_used
+
+
+def names_used(stmts):      # noqa: F811
+    """Names that may be read in stmts before being definitely assigned there."""
+    def walk(ss, defined):
+        reads = set()
+        defined = set(defined)
+        for s in ss:
+            if isinstance(s, ast.Assign) and all(isinstance(t, ast.Name) for t in s.targets):
+                reads |= _names_used_anywhere([ast.Expr(value=s.value)]) - defined
+                defined |= {t.id for t in s.targets}
+            elif isinstance(s, ast.If):
+                reads |= _names_used_anywhere([ast.Expr(value=s.test)]) - defined
+                r1, d1 = walk(s.body, defined)
+                r2, d2 = walk(s.orelse, defined)
+                reads |= r1 | r2
+                defined = d1 & d2
+            else:
+                reads |= _names_used_anywhere([s]) - defined
+        return reads, defined
+    return walk(stmts, set())[0]
